@@ -16,55 +16,57 @@ impl<'b, 'tx> Data<'b, 'tx> {
     { unimplemented!() }
 }
 
-// The cursor over one bucket: `entries()` are the bucket's keys in ascending order, `pos()` the current slot.
-pub struct Cursor<'b, 'tx> {
-    pub next_called: bool,
-    pub _rest: core::marker::PhantomData<(&'b (), &'tx ())>,
-    pub ghost_entries: Ghost<Seq<Seq<u8>>>,
-    pub ghost_pos: Ghost<int>,
+// The cursor over one bucket, as an abstraction of the REAL struct: `c_entries(c)` are the bucket's keys in ascending
+// order, `c_pos(c)` the slot the cursor stands on.  Both are uninterpreted functions of the whole Cursor value, so code
+// that manipulates a cursor's fields directly (instead of through seek/current/next) loses every fact about them.
+pub uninterp spec fn c_entries(c: Cursor) -> Seq<Seq<u8>>;
+pub uninterp spec fn c_pos(c: Cursor) -> int;
+pub uninterp spec fn asref_view<T>(k: T) -> Seq<u8>;
+#[verifier::external_body]
+pub proof fn axiom_asref_slice()
+    ensures forall|s: &[u8]| #[trigger] asref_view::<&[u8]>(s) == s@,
+{
+}
+spec fn c_wf(c: Cursor) -> bool {
+    &&& keys_ascending(c_entries(c))
+    &&& 0 <= c_pos(c)
+    &&& (c_pos(c) < c_entries(c).len() || c_entries(c).len() == 0 && c_pos(c) == 0)
 }
 impl<'b, 'tx> Cursor<'b, 'tx> {
-    pub open spec fn entries(&self) -> Seq<Seq<u8>> { self.ghost_entries@ }
-    pub open spec fn pos(&self) -> int { self.ghost_pos@ }
-    pub open spec fn wf(&self) -> bool {
-        &&& keys_ascending(self.entries())
-        &&& 0 <= self.pos()
-        &&& (self.pos() < self.entries().len() || self.entries().len() == 0 && self.pos() == 0)
-    }
     // seek: reports whether the key exists and stops at it, or "just before where it would be"
     #[verifier::external_body]
-    pub fn seek(&mut self, key: &[u8]) -> (r: bool)
-        requires old(self).wf(),
+    fn seek<T: AsRef<[u8]>>(&mut self, key: T) -> (r: bool)
+        requires c_wf(*old(self)),
         ensures
-            final(self).wf(), final(self).entries() == old(self).entries(), !final(self).next_called,
-            r == old(self).entries().contains(key@),
-            r ==> final(self).entries()[final(self).pos()] == key@,
-            !r && final(self).entries().len() > 0 ==> {
-                let e = final(self).entries(); let p = final(self).pos();
-                &&& forall|j: int| p < j < e.len() ==> slice_lt::<u8>(key@, #[trigger] e[j])
-                &&& (p > 0 ==> slice_lt::<u8>(e[p], key@))
+            c_wf(*final(self)), c_entries(*final(self)) == c_entries(*old(self)), !final(self).next_called,
+            r == c_entries(*old(self)).contains(asref_view(key)),
+            r ==> c_entries(*final(self))[c_pos(*final(self))] == asref_view(key),
+            !r && c_entries(*final(self)).len() > 0 ==> {
+                let e = c_entries(*final(self)); let p = c_pos(*final(self));
+                &&& forall|j: int| p < j < e.len() ==> slice_lt::<u8>(asref_view(key), #[trigger] e[j])
+                &&& (p > 0 ==> slice_lt::<u8>(e[p], asref_view(key)))
             },
     { unimplemented!() }
     #[verifier::external_body]
-    pub fn current(&self) -> (r: Option<Data<'b, 'tx>>)
-        requires self.wf(),
+    fn current<'a>(&'a self) -> (r: Option<Data<'b, 'tx>>)
+        requires c_wf(*self),
         ensures
-            self.entries().len() == 0 ==> r is None,
-            self.entries().len() > 0 ==> (r matches Some(d) && d.key_spec() == self.entries()[self.pos()]),
+            c_entries(*self).len() == 0 ==> r is None,
+            c_entries(*self).len() > 0 ==> (r matches Some(d) && d.key_spec() == c_entries(*self)[c_pos(*self)]),
     { unimplemented!() }
     // next: the first call after creation or after a seek yields the current slot; later calls advance;
     // calling again after the end is harmless
     #[verifier::external_body]
-    pub fn next(&mut self) -> (r: Option<Data<'b, 'tx>>)
-        requires old(self).wf(),
+    fn next(&mut self) -> (r: Option<Data<'b, 'tx>>)
+        requires c_wf(*old(self)),
         ensures
-            final(self).wf(), final(self).entries() == old(self).entries(), final(self).next_called,
-            !old(self).next_called ==> final(self).pos() == old(self).pos()
-                && (old(self).entries().len() == 0 ==> r is None)
-                && (old(self).entries().len() > 0 ==> (r matches Some(d) && d.key_spec() == old(self).entries()[old(self).pos()])),
-            old(self).next_called && old(self).pos() + 1 < old(self).entries().len() ==> final(self).pos() == old(self).pos() + 1
-                && (r matches Some(d) && d.key_spec() == old(self).entries()[old(self).pos() + 1]),
-            old(self).next_called && old(self).pos() + 1 >= old(self).entries().len() ==> final(self).pos() == old(self).pos() && r is None,
+            c_wf(*final(self)), c_entries(*final(self)) == c_entries(*old(self)), final(self).next_called,
+            !old(self).next_called ==> c_pos(*final(self)) == c_pos(*old(self))
+                && (c_entries(*old(self)).len() == 0 ==> r is None)
+                && (c_entries(*old(self)).len() > 0 ==> (r matches Some(d) && d.key_spec() == c_entries(*old(self))[c_pos(*old(self))])),
+            old(self).next_called && c_pos(*old(self)) + 1 < c_entries(*old(self)).len() ==> c_pos(*final(self)) == c_pos(*old(self)) + 1
+                && (r matches Some(d) && d.key_spec() == c_entries(*old(self))[c_pos(*old(self)) + 1]),
+            old(self).next_called && c_pos(*old(self)) + 1 >= c_entries(*old(self)).len() ==> c_pos(*final(self)) == c_pos(*old(self)) && r is None,
     { unimplemented!() }
 }
 
